@@ -53,8 +53,10 @@ func HTMLAttribute(in string) string {
 		} else if c == 62 {
 			// >
 			out.WriteString("&gt;")
-		} else if c <= 31 && c != 9 && c != 10 && c != 13 {
-			// Non-whitespace
+		} else if (c <= 31 && c != 9 && c != 10 && c != 13) || (c >= 0x7F && c <= 0x9F) {
+			// Control characters other than whitespace. (A numeric reference
+			// to 0x80-0x9F would be decoded through the windows-1252 table,
+			// i.e. as another character.)
 			out.WriteString("&#xFFFD;")
 		} else {
 			// UTF-8
